@@ -157,6 +157,9 @@ def check(ck: Checker) -> None:
 
     # -------------------------------------------------------------- onerror
     _check_adder(ck, m, "C04.onerror")
+    from .C11 import _verify_reported
+
+    _verify_reported(ck, "C04.onerror")
 
     # ---------------------------------------------------------------- index
     _check_index(ck, m, success_edge)
@@ -307,11 +310,37 @@ def _check_index(ck: Checker, m: TransferModel, success_edge) -> None:
                    construct=f"if {m.failed}: ... src_index.clear()")
 
 
+def _request_builds(ck: Checker, fn: Func, g, at, arg: ast.expr, depth: int = 2):
+    """How is the request list built?  -> [(Build, owner function, {helper param: caller expression})]"""
+    from ..an import collection_builds, comp_build
+
+    out = []
+    for alt in [arg] + expand(ck.prog, fn, arg):
+        b = comp_build(alt, at)
+        if b is not None:
+            out.append((b, fn, {}))
+        elif isinstance(alt, ast.Name):
+            out += [(b2, fn, {}) for b2 in collection_builds(g, fn.node, alt.id)]
+        elif isinstance(alt, ast.Call) and depth > 0:
+            for cal in ck.res.resolve(fn, alt):
+                if cal.module.trusted or cal.is_method:
+                    continue
+                gh = ck.cfg(cal)
+                binding = {p_: a_ for p_ in cal.params for a_ in [get_arg(alt, cal, p_)] if a_ is not None}
+                for r in walk_own(cal.node):
+                    if isinstance(r, ast.Return) and r.value is not None:
+                        rn = next((n_ for n_ in gh.nodes.values() if n_.ast is r), None)
+                        for b2, owner, _bind in _request_builds(ck, cal, gh, rn, r.value, depth - 1):
+                            out.append((b2, owner, binding))
+    return out
+
+
 def _check_closed_requests(ck: Checker, rule: str) -> None:
     prog, res = ck.prog, ck.res
     n = 0
     for modname, fname in (("index.push", "push"), ("index.fetch", "fetch")):
         fn = ck.func(modname, fname)
+        g = ck.cfg(fn)
         for c, callees in res.calls_in(fn):
             if not any(cal.fq.endswith("hashfile.transfer:transfer") for cal in callees):
                 continue
@@ -319,19 +348,26 @@ def _check_closed_requests(ck: Checker, rule: str) -> None:
             arg = get_arg(c, callees[0], "obj_ids", pos=2)
             ok, why = False, "no obj_ids argument"
             if arg is not None:
-                for alt in expand(prog, fn, arg):
-                    why = norm(alt)
-                    if isinstance(alt, (ast.ListComp, ast.SetComp, ast.GeneratorExp)) and len(alt.generators) == 1:
-                        gen = alt.generators[0]
-                        it = gen.iter
-                        elt = norm(alt.elt)
-                        whole = isinstance(it, ast.Call) and is_method_call(it, "iteritems", "items") and not it.args and not it.keywords and isinstance(it.func.value, ast.Name)
-                        # the iterated index must be the loop variable of `for fs_index in idxs`
-                        if whole:
-                            idx = it.func.value.id
+                at = next((x for x in g.nodes.values() if any(c2 is c for c2 in calls_at(x))), None)
+                builds = _request_builds(ck, fn, g, at, arg)
+                why = norm(arg) if not builds else why
+                for b, owner, binding in builds:
+                    it = b.src
+                    elt = norm(b.elt)
+                    why = f"{elt} for ... in {norm(it)}" + (f" if {[norm(i) for i in b.ifs]}" if b.ifs else "")
+                    whole = isinstance(it, ast.Call) and is_method_call(it, "iteritems", "items") and not it.args and not it.keywords and isinstance(it.func.value, ast.Name)
+                    if whole:
+                        idx = it.func.value.id
+                        if owner is fn:
+                            # the iterated index must be the loop variable of `for fs_index in idxs`
                             whole = any(d.kind == "for" for d in scope_of(fn).get(idx))
-                        filt_ok = all(norm(i) == elt for i in gen.ifs)
-                        ok = whole and elt.endswith(".hash_info") and filt_ok
+                        else:
+                            src_arg = binding.get(idx)
+                            whole = src_arg is not None and isinstance(src_arg, ast.Name) and any(d.kind == "for" for d in scope_of(fn).get(src_arg.id))
+                    filt_ok = all(norm(i) == elt for i in b.ifs)
+                    if whole and elt.endswith(".hash_info") and filt_ok:
+                        ok = True
+                        break
             ck.require(ok, rule, fn, c,
                        "the request lists the hash of every hashed entry of the whole index",
                        f"the transfer request is not the complete list of hashed entries of the index ({why}); files missing from the request are never checked, so their directory object can be sent without them",
